@@ -1,0 +1,74 @@
+//go:build verif
+
+package secp256k1
+
+import "unsafe"
+
+// Verification-only exports (build tag `verif`).  Not part of the API.
+//
+// Raw access to the constant-time table lookups, so that the assembly
+// and the portable implementations can be driven with arbitrary table
+// contents, destinations and (legal) table alignments.
+
+const (
+	// VerifProjectiveEntrySize is the size in bytes of one entry of a
+	// projective lookup table (and of the lookup destination).
+	VerifProjectiveEntrySize = int(unsafe.Sizeof(Point{}))
+	// VerifAffineEntrySize is the size in bytes of one entry of an
+	// affine lookup table (and of the lookup destination).
+	VerifAffineEntrySize = int(unsafe.Sizeof(affinePoint{}))
+	// VerifCoordinateBytes is the number of leading bytes of a
+	// projective entry that hold coordinates.
+	VerifCoordinateBytes = int(unsafe.Offsetof(Point{}.isValid))
+)
+
+// verifPlace returns a slice of `n` bytes backed by 8-byte aligned
+// memory, whose address is 0 mod 16 (misalign = false) or 8 mod 16
+// (misalign = true).  Go only guarantees 8-byte alignment for the
+// table types, so both placements are legal.
+func verifPlace(n int, misalign bool) []byte {
+	words := make([]uint64, n/8+4)
+	off := 0
+	if uintptr(unsafe.Pointer(&words[0]))%16 != 0 {
+		off = 1
+	}
+	if misalign {
+		off++
+	}
+	return unsafe.Slice((*byte)(unsafe.Pointer(&words[off])), n)
+}
+
+// VerifLookupProjectiveRaw copies `tbl` (15 raw entries) into a
+// projectivePointMultTable and `dst` (one raw entry) into a Point,
+// runs lookupProjectivePoint(tbl, dst, idx), and returns the raw
+// bytes of the destination afterwards.  The byte at offset
+// VerifCoordinateBytes of every entry is a Go bool and MUST be 0 or 1.
+func VerifLookupProjectiveRaw(tbl, dst []byte, idx uint64, misalignTable, misalignDst bool) []byte {
+	if len(tbl) != 15*VerifProjectiveEntrySize || len(dst) != VerifProjectiveEntrySize || idx > 15 {
+		panic("verif: bad lookup arguments")
+	}
+	tb := verifPlace(len(tbl), misalignTable)
+	copy(tb, tbl)
+	db := verifPlace(len(dst), misalignDst)
+	copy(db, dst)
+	lookupProjectivePoint((*projectivePointMultTable)(unsafe.Pointer(&tb[0])), (*Point)(unsafe.Pointer(&db[0])), idx)
+	out := make([]byte, len(db))
+	copy(out, db)
+	return out
+}
+
+// VerifLookupAffineRaw is the affine counterpart of
+// VerifLookupProjectiveRaw.
+func VerifLookupAffineRaw(tbl, dst []byte, idx uint64, misalignTable, misalignDst bool) []byte {
+	if len(tbl) != 15*VerifAffineEntrySize || len(dst) != VerifAffineEntrySize || idx > 15 {
+		panic("verif: bad lookup arguments")
+	}
+	tb := verifPlace(len(tbl), misalignTable)
+	copy(tb, tbl)
+	db := verifPlace(len(dst), misalignDst)
+	copy(db, dst)
+	lookupAffinePoint((*affinePointMultTable)(unsafe.Pointer(&tb[0])), (*affinePoint)(unsafe.Pointer(&db[0])), idx)
+	out := make([]byte, len(db))
+	copy(out, db)
+	return out
+}
